@@ -11,7 +11,9 @@ for ln in open('/verif/known_findings.txt'):
     if m: known.add(m.group(2))
 os.makedirs('/verif/findings/%s' % prop, exist_ok=True)
 out = []
-for f in sorted(glob.glob(R + '*.plan')):
+import json
+last = json.load(open('/verif/build/out/%s/last_run_violations.json' % prop))
+for f in sorted(last.values()):
     lines = open(f).read().splitlines()
     sig = lines[0][7:].strip()
     det = lines[1][10:].strip() if len(lines) > 1 and lines[1].startswith('# detail:') else ''
